@@ -33,6 +33,9 @@ def scenarios():
             out.append({"name": "run-%s-%s" % ("seq" if jobs is None else "j3", git), "cmd": "run", "jobs": jobs, "git": git, "prior": git == "none"})
     out.append({"name": "run-j3-unrelated-children", "cmd": "run", "jobs": 3, "git": "none", "prior": False, "prefork": [[15, 0], [40, 0], [90, 0], [160, 0]]})
     out.append({"name": "run-seq-unrelated-children", "cmd": "run", "jobs": None, "git": "none", "prior": True, "prefork": [[10, 0], [60, 0], [140, 0], [250, 0]]})
+    # an earlier, unrecorded (failed) execution left <name>.task.T behind and the clock yields T again
+    out.append({"name": "run-seq-leftover-same-clock", "cmd": "run", "jobs": None, "git": "none", "prior": False, "leftover_clock": 1_610_000_000})
+    out.append({"name": "run-j3-leftover-same-clock", "cmd": "run", "jobs": 3, "git": "none", "prior": True, "leftover_clock": 1_610_000_000})
     out.append({"name": "restore", "cmd": "restore", "jobs": None, "git": "none", "prior": True})
     out.append({"name": "restore-after-killed-restore", "cmd": "restore", "jobs": None, "git": "none", "prior": True, "killed_restore_first": True})
     out.append({"name": "archive", "cmd": "archive", "jobs": None, "git": "none", "prior": True})
@@ -70,6 +73,15 @@ def build(scroot, scn):
         pr.cond(["run", "//:ok1"], timeout=60, clock=[1_600_000_000])
         pr.cond(["run", "//a/b:ok3", "--again"], timeout=60, clock=[1_600_000_100])
     extra = {}
+    if scn.get("leftover_clock"):
+        keep = json.loads(json.dumps(pr.scripts))
+        for tid in ("//:ok1", "//a/b:ok3"):
+            pr.scripts[tid] = {"steps": [["file", "leftover-of-failed-run.txt", realrun.b64(b"partial")]], "exit": 7}
+        pr.write_scn()
+        pr.cond(["run", "//:ok1"], timeout=60, clock=[scn["leftover_clock"]])
+        pr.cond(["run", "//a/b:ok3"], timeout=60, clock=[scn["leftover_clock"]])
+        pr.scripts = keep
+        pr.write_scn()
     if scn["cmd"] in ("restore",):
         ap = os.path.join(scroot, "kept.tar.gz")
         pr.cond(["run", "//a:ok2"], timeout=60, clock=[1_600_000_200])
@@ -294,6 +306,8 @@ def crash_case(scn, k, nth, pr, extra, sc):
             kw.update(crash_at=k, crash_note=note, extra_files=[shutil.__file__] if scn["cmd"] in ("restore", "gc") else [])
         if scn.get("prefork"):
             kw["prefork"] = [tuple(x) for x in scn["prefork"]]
+        if scn.get("leftover_clock"):
+            kw["clock"] = [scn["leftover_clock"]]
         pr.events(new_only=True)
         r = pr.cond(argv, timeout=120, **kw)
         site = None
@@ -364,6 +378,11 @@ def main(tier, n=None):
             continue
         total_events += c["n"]
         cases.append((scn, None, 0))
+        if scn.get("leftover_clock"):
+            cases += [(scn, None, i) for i in range(1, 4)]
+            ks = sorted({kk for site, occ in c["sites"].items() if site.startswith(("execution/ops/run_task_executable.py", "execution/version_index.py", "task_types/run.py")) for kk in (occ[:2] + occ[-1:])})
+            cases += [(scn, kk, 0) for kk in (ks if tier == "thorough" else ks[::3])]
+            continue
         if scn.get("prefork"):
             # unrelated children matter for the crash-free outcome (who gets recorded), not per crash point
             cases += [(scn, None, i) for i in range(1, 8 if tier == "quick" else 60)]
